@@ -676,7 +676,7 @@ func (p c20) random(r *core.Result, c core.Case) {
 		r.Count("tables", 1)
 		r.Count("error_tables", 1)
 		if !finished {
-			if core.CanaryWorstMS() > 1500 {
+			if core.CanaryWorstMS() > 600 {
 				r.Verdict = core.Inconclusive
 				r.Note = "finished not observed under starvation"
 			} else {
